@@ -146,6 +146,15 @@ func allocWorkerMain() {
 		res := measure(a)
 		runtime.GC()
 		debug.FreeOSMemory()
+		// TotalAlloc is process-wide: a measurement over the bound is repeated and the smallest growth
+		// counts, so that a stray allocation of the runtime cannot tip a borderline case
+		for k := 0; k < 2 && res.Panic == "" && res.Delta > uint64(a.Limit)+allocSlack; k++ {
+			if again := measure(a); again.Delta < res.Delta {
+				res = again
+			}
+			runtime.GC()
+			debug.FreeOSMemory()
+		}
 		b, _ := json.Marshal(res)
 		out.WriteString("END " + string(b) + "\n")
 		out.Flush()
